@@ -259,7 +259,16 @@ pub fn mut_step(d: &mut Driver, ch: &mut dyn Chooser, i: usize, full: bool) {
                         m.put_u8(x)
                     }
                 }),
-                _ => run(d, name, || m.extend(data.iter())),
+                _ => {
+                    if n % 2 == 0 {
+                        run(d, name, || m.extend(data.iter()))
+                    } else {
+                        // Extend<Bytes>: the data arrives as a few Bytes pieces
+                        let k = n / 2;
+                        let pieces = vec![Bytes::copy_from_slice(&data[..k]), Bytes::new(), Bytes::from(data[k..].to_vec())];
+                        run(d, name, || m.extend(pieces))
+                    }
+                }
             };
             if r.is_some() {
                 d.cell(format!("M|{rname}|{name}|{}|ok", if n <= cap - len { "fits" } else { "grows" }));
